@@ -46,4 +46,16 @@ func init() {
 		Explanation: "Exhaustiveness of operation/mutator/condition tables.",
 		NotCovered: "what each handler computes",
 	})
+
+	registerRule(&RuleDef{ID: "P-NIL-MON", Min: 4, Doc: "monitor request optional members", Run: rulePNILmon})
+	registerRule(&RuleDef{ID: "W1", Min: 15, Doc: "notification method/arity/payload agree between server sender, client handler and spec", Run: ruleW})
+	for _, id := range []string{"W2", "W3", "W4"} {
+		registerRule(&RuleDef{ID: id, Min: 3, Doc: "emitted by the W1 pass", Run: func(p *Program, r *Reporter) {}})
+	}
+	registerProp(&PropDef{
+		ID:    "C07",
+		Rules: []string{"W1", "W2", "W3", "W4", "P-NIL-MON"},
+		Explanation: "wiring",
+		NotCovered: "values",
+	})
 }
